@@ -171,11 +171,6 @@ def run_update(w, node, sm, mode, fresh, order_rng, failing):
     return res
 
 
-def fail_policy(failing):
-    """grid policy used outside run_update (world construction): never fails anything"""
-    return "fifo"
-
-
 # --------------------------------------------------------------------------- layouts
 def place(w, rng, pattern, newest, older, comp, crafted):
     """put shares along the permuted list; returns a description"""
